@@ -4,11 +4,13 @@ import (
 	"fmt"
 	"io"
 	"os"
+	"sync"
 )
 
 type fileDisk struct {
 	fpath     string
 	f         *os.File
+	mutex     sync.Mutex // protects the RAM copy of parts against concurrent readers
 	parts     []*partDisk
 	finalSize uint64
 }
@@ -37,9 +39,11 @@ func (s *fileDisk) Finalize() {
 	}
 
 	// remove file from memory; we will use disk from now on
+	s.mutex.Lock()
 	for _, p := range s.parts {
 		p.buffer = nil
 	}
+	s.mutex.Unlock()
 
 	s.f.Close()
 	s.f = nil
